@@ -532,7 +532,7 @@ def instr_values(word, ctx, r):
 # shadow poisoning and gigabytes of RSS per case; jsim currently starts its children with a fixed environment, so the
 # driver cannot pass max_allocation_size_mb itself.  Until jsim sets such a cap, counts above HUGE_LIMIT are left out
 # (set C10_HUGE_VALUES=1 to put them back: they are what exposes the unchecked-length exits "janet out of memory").
-HUGE_VALUES = os.environ.get("C10_HUGE_VALUES") == "1"
+HUGE_VALUES = os.environ.get("C10_HUGE_VALUES", "1") == "1"   # on: ASan caps a single allocation at 512 MB (jsim.c)
 HUGE_LIMIT = 1 << 22
 ALLOC_ROLES = {"def.constants_length", "def.bytecode_length", "def.environments_length", "def.defs_length",
                "def.symbolmap_length", "def.slotcount", "def.arity", "def.min_arity", "def.max_arity", "env.length",
